@@ -72,7 +72,7 @@ package trie2
 //@   trusted
 // Proof sets hold well-formed nodes (assumption on how they are built).
 //@ extern func github.com/NethermindEth/juno/utils.(*OrderedSet).Get
-//@   ensures result1 && istype(result0, *trienode.EdgeNode) ==> cast(result0, *trienode.EdgeNode) != nil && cast(result0, *trienode.EdgeNode).Path != nil && trieutils.wf(cast(result0, *trienode.EdgeNode).Path) && fresh(cast(result0, *trienode.EdgeNode).Path) == false
+//@   ensures result1 && istype(result0, *trienode.EdgeNode) ==> cast(result0, *trienode.EdgeNode) != nil && cast(result0, *trienode.EdgeNode).Path != nil && trieutils.wf(cast(result0, *trienode.EdgeNode).Path) && preexisting(cast(result0, *trienode.EdgeNode).Path)
 //@   ensures result1 && istype(result0, *trienode.BinaryNode) ==> cast(result0, *trienode.BinaryNode) != nil
 //@ extern func github.com/NethermindEth/juno/core/trie2/trieutils.(*BitArray).SetFelt
 //@   requires b != nil
@@ -81,7 +81,7 @@ package trie2
 //@ extern func github.com/NethermindEth/juno/core/felt.(*Felt).String
 //@ func VerifyProof
 //@   props C10
-//@   arith int
+//@   arith bv
 //@   nosafe
 //@   requires root != nil && key != nil && proof != nil
 //@   modifies *
